@@ -328,3 +328,51 @@ def spiral_polygon(rng, turns=None):
     s = dy(rng.uniform(0.5, 3.0)); ox, oy = dy(rng.uniform(-50, 50)), dy(rng.uniform(-50, 50))
     pts = [(p[0] * s + ox, p[1] * s + oy) for p in loop]
     return pts if certify_polygon(pts) else star_polygon(rng)
+
+
+def _int_simple(pts):
+    """exact simplicity test for integer points (no two non-adjacent edges touch, no zero-length edge)"""
+    n = len(pts)
+    def orient(a, b, c):
+        v = (b[0] - a[0]) * (c[1] - a[1]) - (b[1] - a[1]) * (c[0] - a[0])
+        return (v > 0) - (v < 0)
+    def on(a, b, c):
+        return min(a[0], b[0]) <= c[0] <= max(a[0], b[0]) and min(a[1], b[1]) <= c[1] <= max(a[1], b[1])
+    for i in range(n):
+        a, b = pts[i], pts[(i + 1) % n]
+        if a == b:
+            return False
+        for j in range(i + 1, n):
+            c, d = pts[j], pts[(j + 1) % n]
+            adjacent = j == i + 1 or (i == 0 and j == n - 1)
+            o1, o2, o3, o4 = orient(a, b, c), orient(a, b, d), orient(c, d, a), orient(c, d, b)
+            if adjacent:
+                # only the shared vertex may be common: reject folds back onto the previous edge
+                if j == i + 1 and o2 == 0 and on(a, b, d) and d != b: return False
+                if i == 0 and j == n - 1 and o1 == 0 and on(a, b, c) and c != a: return False
+                continue
+            if o1 != o2 and o3 != o4:
+                return False
+            if (o1 == 0 and on(a, b, c)) or (o2 == 0 and on(a, b, d)) or (o3 == 0 and on(c, d, a)) or (o4 == 0 and on(c, d, b)):
+                return False
+    return True
+
+
+def lobed_polygon(rng, n=None, R=1000):
+    """star-shaped loop with smooth lobes (radius R(1 + a sin(k t + phi)) + noise) on integer coordinates, counter-clockwise,
+    certified simple (exact integer tests); many vertices lie close to one another across the concave parts, so candidate
+    ears often contain other vertices"""
+    for _ in range(50):
+        m = n or rng.randint(81, 140)
+        k = rng.randint(3, 17); a = rng.uniform(0.2, 0.5); phi = rng.uniform(0, 2 * math.pi)
+        noise = rng.choice([0.0, 0.0, 0.02, 0.05])
+        c = (rng.randint(-3 * R, 3 * R), rng.randint(-3 * R, 3 * R))
+        pts = []
+        for i in range(m):
+            t = 2 * math.pi * i / m
+            r = R * (1 + a * math.sin(k * t + phi)) * (1 + rng.uniform(-noise, noise))
+            pts.append((c[0] + int(round(r * math.cos(t))), c[1] + int(round(r * math.sin(t)))))
+        area2 = sum(pts[i - 1][0] * pts[i][1] - pts[i - 1][1] * pts[i][0] for i in range(m))
+        if area2 > 0 and _int_simple(pts):
+            return [(float(x), float(y)) for x, y in pts]
+    return star_polygon(rng, n=90, R=float(R))
